@@ -1,7 +1,9 @@
 /* C02/C06: bit reader of igzip/igzip_inflate.c (inflate_in_load, inflate_in_read_bits(_unsafe)) */
 #include "igzip_inflate_parts.h"
-uint32_t g_p, g_b, g_n;
-uint64_t g_d;
+uint32_t g_p, g_b, g_n, g_q;
+uint8_t w_q0;
+uint64_t g_d, g_s0;
+int64_t g_bits0;
 #include "splice_defaults.h"
 #include "igzip/igzip_inflate.c"
 
